@@ -8,20 +8,13 @@ export VERIF_DIR="$PWD"
 export GOFLAGS=-mod=mod GOPROXY=off GOSUMDB=off GOTOOLCHAIN=local CGO_ENABLED=1
 mkdir -p bin work
 cp /repo/go.sum sim/go.sum 2>/dev/null
-# same build as run.sh: a scratch copy of /repo's working tree with a yield point before every
-# synchronisation operation (cmd/autoyield), removed after the build
-scratch="$(mktemp -d /tmp/verif-plenc-XXXXXX)" || exit 2
-trap 'rm -rf "$scratch" "$VERIF_DIR/bin/autoyield-$$" "$VERIF_DIR"/sim/go.alt.$$.mod "$VERIF_DIR"/sim/go.alt.$$.sum' EXIT
-rsync -a --exclude .git /repo/ "$scratch"/ || exit 2
-( cd sim && go build -o "$VERIF_DIR/bin/autoyield-$$" ./cmd/autoyield ) || { echo "build failed" >&2; exit 2; }
-"$VERIF_DIR/bin/autoyield-$$" "$scratch" >/dev/null || { echo "autoyield failed" >&2; exit 2; }
-export VERIF_PLENC_SRC="$scratch"
-sed "s|=> /repo\$|=> $scratch|" sim/go.mod > sim/go.alt.$$.mod; cp sim/go.sum sim/go.alt.$$.sum
+# same build as run.sh: against a scratch copy of /repo's working tree with automatic yield points
 race=""
 grep -q '"race_build": true' "$f" && race="-race"
 bin="$VERIF_DIR/bin/replay-$$"
-( cd sim && go build -modfile=go.alt.$$.mod -tags verif $race -o "$bin" ./cmd/sim ) || { echo "build failed" >&2; exit 2; }
-rm -rf "$scratch" "$VERIF_DIR/bin/autoyield-$$" sim/go.alt.$$.mod sim/go.alt.$$.sum
+. "$VERIF_DIR/build.inc.sh"
+if [ -n "$race" ]; then build "$bin" -race; fi
+cleanup_scratch
 if [ -n "$race" ]; then
   export GORACE="log_path=$VERIF_DIR/work/replayrace-$$ halt_on_error=0 exitcode=0 history_size=3 suppress_equal_stacks=0 suppress_equal_addresses=0"
 fi
